@@ -90,6 +90,7 @@ type Conn struct {
 	inWrite   int32
 	Overlap   bool // set when two Write calls overlapped in time
 	closed    bool
+	OnWrite   func(b []byte) // optional: sees the argument of every Write call
 }
 
 // Pipe returns a connected pair; capacity bounds each direction's buffer (0 = unbounded).
@@ -253,6 +254,9 @@ func (c *Conn) Write(b []byte) (n int, err error) {
 	c.inWrite++
 	if c.inWrite > 1 {
 		c.Overlap = true
+	}
+	if c.OnWrite != nil {
+		c.OnWrite(b)
 	}
 	defer func() { c.pmu.Lock(); c.inWrite--; c.pmu.Unlock() }()
 	if c.wfail {
